@@ -24,7 +24,7 @@ func TestMain(m *testing.M) {
 	ev.SetMeta(ev.Meta{
 		Property: "C03", Level: "exploration",
 		Rule: "rapid state machine over a block trie (LevelNodeDB(memory, base) with generated genesis content built by inserts and deletes, shared BlockCache) and up to 5 concurrently open child tries created exactly like the chain's CreateTxnMPT (plus grand-children): open, child insert/delete/get, merge (with or without committing the child's transaction cache), discard. " +
-			"Oracle: a model map per trie; after every step every trie other than the one operated on must present the same root and the same rendered pending change set (hash + full encoding of New/Old, deletes) as before, every non-stale trie must read (lookups + Iterate) exactly its model, an accepted merge makes the parent's root and content the child's, a merge of a stale child with a different start root must be rejected without effect, and the block trie's root must resolve from base + its own pending New nodes re-keyed by the reference hasher. " +
+			"Oracle: a model map per trie; after every step every trie other than the one operated on must present the same root and the same rendered pending change set (hash + full encoding of New/Old, deletes) as before, every non-stale trie must read (lookups + Iterate) exactly its model, an accepted merge makes the parent's root and content the child's, a merge of a stale child with a different start root must be rejected without effect, the block trie's root must resolve from base + its own pending New nodes re-keyed by the reference hasher, and the block's own node store read without any node cache must hold the same state. " +
 			"Non-trivial = at least two children overlapped in time and a discarded or stale child performed a delete after an earlier sibling had merged; distinct = distinct step list.",
 		Assumptions: []string{"a child whose parent moved on (stale) may fail its own operations; only the parent and non-stale siblings are protected", "children that were ever stale are discarded rather than merged when the parent's root happens to equal their start root again"},
 	})
@@ -42,6 +42,7 @@ type trie struct {
 	didDelete bool
 	touched   []string
 	openedAt  int
+	plan      []string // paths this trie inserts next (nested-prefix triples)
 }
 
 type step struct {
@@ -63,6 +64,8 @@ func (s step) String() string {
 		return fmt.Sprintf("%s.del(%q)", s.Trie, s.Path)
 	case "merge":
 		return fmt.Sprintf("merge %s into %s (commit cache: %v)", s.Child, s.Trie, s.Flag)
+	case "commit-cache+merge":
+		return fmt.Sprintf("commit the cache of %s, then merge it into %s", s.Child, s.Trie)
 	case "discard":
 		return fmt.Sprintf("discard %s", s.Child)
 	case "read":
@@ -182,6 +185,15 @@ func (w *world) checkBlockResolvable(when string) {
 	if !mptkit.EqualContent(wk.Content, w.block.model) {
 		w.failf("%s: block content from base + pending changes is %s, model %s", when, mptkit.Show(wk.Content), mptkit.Show(w.block.model))
 	}
+	// the block's own node store (this round's level over base), read without any node cache, holds the same state:
+	// what a merge publishes must not live in the shared cache only
+	ws := refmpt.WalkFrom(w.block.mpt.GetRoot(), mptkit.GetterOf(w.block.mpt.GetNodeDB()), false)
+	if len(ws.Missing) > 0 || len(ws.Problems) > 0 {
+		w.failf("%s: block root %x does not resolve from the block's node store: missing %d, problems %v", when, w.block.mpt.GetRoot(), len(ws.Missing), ws.Problems)
+	}
+	if !mptkit.EqualContent(ws.Content, w.block.model) {
+		w.failf("%s: block content read from its node store is %s, model %s", when, mptkit.Show(ws.Content), mptkit.Show(w.block.model))
+	}
 }
 
 func (w *world) descendantOf(t, anc *trie) bool {
@@ -256,7 +268,7 @@ func genGenesis(rt *rapid.T, w *world) (map[string][]byte, []byte, []string) {
 }
 
 func TestIsolation(t *testing.T) {
-	ev.Rapid(t, 1500, 20000)
+	ev.Rapid(t, 5000, 40000)
 	rapid.Check(t, func(rt *rapid.T) { run(rt) })
 }
 
@@ -277,6 +289,8 @@ func run(rt *rapid.T) {
 	var touchedByMerged []string // keys touched by children that merged into the block
 	overlap, staleRejected, discarded, cacheCommitted, cacheNot, grand := false, false, false, false, false, false
 	lateDelete := false
+	nested := false
+	var nestForks []string
 	mergedCount := 0
 
 	for i := 0; i < nsteps; i++ {
@@ -328,7 +342,16 @@ func run(rt *rapid.T) {
 						refs = append(refs, o.touched...)
 					}
 				}
-				if len(refs) > 0 && gen.Chance(rt, 60, "near") {
+				var forks []string
+				for _, q := range nestForks {
+					if _, ok := c.model[q]; ok {
+						forks = append(forks, q)
+					}
+				}
+				if len(forks) > 0 && gen.Chance(rt, 30, "delfork") {
+					// the early fork of a nested triple: its removal leaves a one-child branch between two extensions
+					p = gen.Pick(rt, forks, "forkkey")
+				} else if len(refs) > 0 && gen.Chance(rt, 60, "near") {
 					// the live key sharing the longest prefix with a key that an open sibling or an earlier merged sibling touched
 					ref := gen.Pick(rt, refs, "ref")
 					best, bl := p, -1
@@ -364,6 +387,27 @@ func run(rt *rapid.T) {
 				}
 			} else {
 				p = mptkit.GenPath(rt, append(append([]string{}, used...), live...), 3, "ip")
+				if len(c.plan) > 0 {
+					p, c.plan = c.plan[0], c.plan[1:]
+				} else if gen.Chance(rt, 12, "nest") {
+					// a nested-prefix triple inserted by one trie: A, then B leaving A early (the split creates an
+					// extension above a two-child branch), then C leaving A late (A's side becomes extension/branch)
+					a := mptkit.GenFixedPath(rt, gen.Uniform(rt, 2, 4, "nestlen"), "nesta")
+					early := gen.Uniform(rt, 1, len(a)/2, "nestearly")
+					late := gen.Uniform(rt, len(a)/2+1, len(a)-1, "nestlate")
+					flip := func(q string, j int, d int) string {
+						const hexd = "0123456789abcdef"
+						n := hexd[(strings.IndexByte(hexd, q[j])+d)%16]
+						return q[:j] + string(n) + q[j+1:]
+					}
+					b := flip(a, early, 1+gen.Uniform(rt, 0, 13, "nestbd"))
+					if gen.Chance(rt, 50, "nestbtail") {
+						b = b[:early+1] + mptkit.GenFixedPath(rt, 4, "nestbt")[:len(a)-early-1]
+					}
+					p, c.plan = a, []string{b, flip(a, late, 1+gen.Uniform(rt, 0, 13, "nestcd"))}
+					nestForks = append(nestForks, b)
+					nested = true
+				}
 				v := mptkit.GenValue(rt, "iv")
 				st = step{Kind: "ins", Trie: c.name, Path: p, Val: fmt.Sprintf("%x", v)}
 				_, err := c.mpt.Insert(util.Path(p), mptkit.Val(v))
@@ -402,11 +446,19 @@ func run(rt *rapid.T) {
 				break
 			}
 			commit := gen.Chance(rt, 50, "commit")
+			// the child's transaction cache is committed after the merge (as the chain does) or, less often, before it
+			commitFirst := commit && !c.stale && gen.Chance(rt, 30, "commitfirst")
 			st = step{Kind: "merge", Trie: p.name, Child: c.name, Flag: commit}
 			if !c.stale && c.model != nil {
 				w.checkView(c, "before merge of "+c.name)
 			}
 			actor = p
+			if commitFirst {
+				c.mpt.Cache().Commit()
+				cacheCommitted = true
+				commit = false
+				st.Kind = "commit-cache+merge"
+			}
 			err := p.mpt.MergeMPTChanges(c.mpt)
 			childRoot := c.mpt.GetRoot()
 			if c.stale {
@@ -476,7 +528,7 @@ func run(rt *rapid.T) {
 			if t == actor || !t.open && t != w.block {
 				continue
 			}
-			if st.Kind == "merge" && t.name == st.Child {
+			if (st.Kind == "merge" || st.Kind == "commit-cache+merge") && t.name == st.Child {
 				continue
 			}
 			if t.stale {
@@ -539,6 +591,7 @@ func run(rt *rapid.T) {
 	add(cacheNot, "cache-not-committed")
 	add(grand, "grand-child")
 	add(lateDelete, "delete-after-sibling-merge")
+	add(nested, "nested-prefix-triple")
 	add(mergedCount >= 2, "two-merges")
 	var sb strings.Builder
 	fmt.Fprintf(&sb, "%v|", w.genesis)
